@@ -26,17 +26,21 @@ func (s *suites) dump() interface{}                 { return s.imp.dump() }
 func (r *sysRun) resolve(ctx context.Context, desc string) (out interface{}) {
 	defer func() {
 		if e := recover(); e != nil {
-			out = C("RPanic", fmt.Sprint(e))
+			_ = fmt.Sprint(e)
+			out = C("LPanic")
 		}
 	}()
 	setTarget(r.m)
 	res, err := xdssuite.NewXDSResolver().Resolve(ctx, desc)
 	if err != nil {
-		return C("RErr")
+		return C("LResolved", nil)
 	}
 	var insts []interface{}
 	for _, in := range res.Instances {
 		insts = append(insts, P(in.Address().String(), uint64(in.Weight())))
 	}
-	return C("ROk", Lof(insts), res.Cacheable, res.CacheKey)
+	if !res.Cacheable || res.CacheKey != desc {
+		return C("LOther")
+	}
+	return C("LResolved", Some(Lof(insts)))
 }
